@@ -8,13 +8,14 @@ package main
 
 import (
 	"fmt"
-	"strconv"
 	"strings"
 
 	"github.com/apache/yunikorn-core/pkg/common/configs"
 	"github.com/apache/yunikorn-core/pkg/common/resources"
+	"github.com/apache/yunikorn-core/pkg/common/security"
 	"github.com/apache/yunikorn-core/pkg/scheduler/objects"
 	"github.com/apache/yunikorn-core/pkg/scheduler/policies"
+	"github.com/apache/yunikorn-scheduler-interface/lib/go/si"
 )
 
 type chSpec struct {
@@ -23,9 +24,24 @@ type chSpec struct {
 	guar    *resources.Resource
 	alloc   *resources.Resource
 	pending *resources.Resource
+	state   string   // Active, Draining, Stopped
+	pr      prSpec   // priority.policy / priority.offset and the applications of a leaf child
+	kids    []prSpec // not empty: the child is a parent queue, these are its leaf queues
+}
+
+// prAsk is an ask of an application: added with its priority, possibly removed again afterwards.
+type prAsk struct {
 	prio    int32
-	offset  int    // priority.offset property, 0 = not set
-	state   string // Active, Draining, Stopped
+	removed bool
+}
+
+// prSpec is what the priority of a queue is made of: the policy and offset properties (texts as configured, "" = not set)
+// and, for a leaf, its applications (each a list of asks).
+type prSpec struct {
+	name   string
+	policy string
+	offset string
+	apps   [][]prAsk
 }
 
 type chCase struct {
@@ -55,14 +71,44 @@ func (c *Ctx) sparseRes(p float64, lo, span int, zeroP float64) *resources.Resou
 func encChSpec(cs chCase) map[string]interface{} {
 	kids := []map[string]interface{}{}
 	for _, k := range cs.children {
+		sub := []interface{}{}
+		for _, g := range k.kids {
+			sub = append(sub, encPrSpec(g))
+		}
 		kids = append(kids, map[string]interface{}{"name": k.name, "max": encRes(k.max), "guaranteed": encRes(k.guar), "alloc": encRes(k.alloc),
-			"pending": encRes(k.pending), "prio": k.prio, "offset": k.offset, "state": k.state})
+			"pending": encRes(k.pending), "state": k.state, "pr": encPrSpec(k.pr), "kids": sub})
 	}
 	chain := []interface{}{}
 	for _, r := range cs.chain {
 		chain = append(chain, encRes(r))
 	}
 	return map[string]interface{}{"rootMax": encRes(cs.rootMax), "chain": chain, "prioProp": cs.prioProp, "children": kids, "trees": cs.trees}
+}
+
+func encPrSpec(p prSpec) map[string]interface{} {
+	apps := []interface{}{}
+	for _, a := range p.apps {
+		asks := []interface{}{}
+		for _, k := range a {
+			asks = append(asks, map[string]interface{}{"prio": k.prio, "removed": k.removed})
+		}
+		apps = append(apps, asks)
+	}
+	return map[string]interface{}{"name": p.name, "policy": p.policy, "offset": p.offset, "apps": apps}
+}
+
+func decPrSpec(v interface{}) prSpec {
+	m := v.(map[string]interface{})
+	p := prSpec{name: jsonStr(m["name"]), policy: jsonStr(m["policy"]), offset: jsonStr(m["offset"])}
+	for _, a := range m["apps"].([]interface{}) {
+		asks := []prAsk{}
+		for _, k := range a.([]interface{}) {
+			km := k.(map[string]interface{})
+			asks = append(asks, prAsk{prio: int32(jsonInt(km["prio"])), removed: jsonBool(km["removed"])})
+		}
+		p.apps = append(p.apps, asks)
+	}
+	return p
 }
 
 func decChSpec(v interface{}) chCase {
@@ -73,8 +119,12 @@ func decChSpec(v interface{}) chCase {
 	}
 	for _, e := range m["children"].([]interface{}) {
 		k := e.(map[string]interface{})
-		cs.children = append(cs.children, chSpec{name: jsonStr(k["name"]), max: decRes(k["max"]), guar: decRes(k["guaranteed"]), alloc: decRes(k["alloc"]),
-			pending: decRes(k["pending"]), prio: int32(jsonInt(k["prio"])), offset: int(jsonInt(k["offset"])), state: jsonStr(k["state"])})
+		ch := chSpec{name: jsonStr(k["name"]), max: decRes(k["max"]), guar: decRes(k["guaranteed"]), alloc: decRes(k["alloc"]),
+			pending: decRes(k["pending"]), state: jsonStr(k["state"]), pr: decPrSpec(k["pr"])}
+		for _, g := range k["kids"].([]interface{}) {
+			ch.kids = append(ch.kids, decPrSpec(g))
+		}
+		cs.children = append(cs.children, ch)
 	}
 	for _, t := range m["trees"].([]interface{}) {
 		order := []string{}
@@ -88,7 +138,7 @@ func decChSpec(v interface{}) chCase {
 
 // buildChildrenTree creates root -> chain... -> children (in the given order) out of real queues.
 func buildChildrenTree(cs chCase, order []string) (*objects.Queue, []*objects.Queue, map[string]*objects.Queue) {
-	root, err := objects.NewConfiguredQueue(configs.QueueConfig{Name: "root", Parent: true}, nil, true, nil)
+	root, err := objects.NewConfiguredQueue(configs.QueueConfig{Name: "root", Parent: true}, nil, false, nil)
 	if err != nil {
 		panic(err)
 	}
@@ -102,7 +152,7 @@ func buildChildrenTree(cs chCase, order []string) (*objects.Queue, []*objects.Qu
 		if i == len(cs.chain)-1 && cs.prioProp != "" {
 			conf.Properties = map[string]string{configs.ApplicationSortPriority: cs.prioProp}
 		}
-		q, err := objects.NewConfiguredQueue(conf, cur, true, nil)
+		q, err := objects.NewConfiguredQueue(conf, cur, false, nil)
 		if err != nil {
 			panic(err)
 		}
@@ -116,15 +166,26 @@ func buildChildrenTree(cs chCase, order []string) (*objects.Queue, []*objects.Qu
 	kids := map[string]*objects.Queue{}
 	for _, name := range order {
 		k := byName[name]
-		conf := configs.QueueConfig{Name: k.name, Resources: configs.Resources{Max: confMap(k.max), Guaranteed: confMap(k.guar)}}
-		if k.offset != 0 {
-			conf.Properties = map[string]string{configs.PriorityOffset: strconv.Itoa(k.offset)}
-		}
-		q, err := objects.NewConfiguredQueue(conf, cur, true, nil)
+		conf := configs.QueueConfig{Name: k.name, Parent: len(k.kids) > 0, Resources: configs.Resources{Max: confMap(k.max), Guaranteed: confMap(k.guar)},
+			Properties: prProps(k.pr)}
+		q, err := objects.NewConfiguredQueue(conf, cur, false, nil)
 		if err != nil {
 			panic(err)
 		}
-		q.VerifSetSortKeys(k.prio, k.pending.Clone(), k.alloc.Clone())
+		// the priority of the queue comes from the real path: asks added to / removed from real applications in the leaf
+		// queues (Application.AddAllocationAsk / RemoveAllocationAsk -> Queue.UpdateApplicationPriority -> parent.UpdateQueuePriority)
+		if len(k.kids) > 0 {
+			for _, g := range k.kids {
+				leaf, err := objects.NewConfiguredQueue(configs.QueueConfig{Name: g.name, Properties: prProps(g)}, q, false, nil)
+				if err != nil {
+					panic(err)
+				}
+				prApply(leaf, g)
+			}
+		} else {
+			prApply(q, k.pr)
+		}
+		q.VerifSetUsage(k.pending.Clone(), k.alloc.Clone())
 		switch k.state {
 		case "Draining":
 			q.MarkQueueForRemoval()
@@ -136,6 +197,59 @@ func buildChildrenTree(cs chCase, order []string) (*objects.Queue, []*objects.Qu
 		kids[name] = q
 	}
 	return cur, path, kids
+}
+
+func prProps(p prSpec) map[string]string {
+	props := map[string]string{}
+	if p.policy != "" {
+		props[configs.PriorityPolicy] = p.policy
+	}
+	if p.offset != "" {
+		props[configs.PriorityOffset] = p.offset
+	}
+	return props
+}
+
+var chAppSeq int
+
+// prApply creates the applications of a leaf queue and adds / removes their asks.
+func prApply(leaf *objects.Queue, p prSpec) {
+	for ai, asks := range p.apps {
+		chAppSeq++
+		id := fmt.Sprintf("app-%d-%d", chAppSeq, ai)
+		app := objects.NewApplication(&si.AddApplicationRequest{ApplicationID: id, QueueName: leaf.GetQueuePath(), PartitionName: "default",
+			ExecutionTimeoutMilliSeconds: 3600000}, security.UserGroup{User: "u"}, &relHandler{}, "rm")
+		app.SetQueue(leaf)
+		leaf.AddApplication(app)
+		for i, a := range asks {
+			ask := objects.NewAllocationFromSI(&si.Allocation{AllocationKey: fmt.Sprintf("%s-k%d", id, i), ApplicationID: id, Priority: a.prio,
+				ResourcePerAlloc: &si.Resource{Resources: map[string]*si.Quantity{"cpu": {Value: 1}}}})
+			if err := app.AddAllocationAsk(ask); err != nil {
+				panic(err)
+			}
+		}
+		for i, a := range asks {
+			if a.removed {
+				app.RemoveAllocationAsk(fmt.Sprintf("%s-k%d", id, i))
+			}
+		}
+	}
+}
+
+// prDump reads policy and offset back from the real queue; the asks are inputs.
+func prDump(q *objects.Queue, p prSpec) map[string]interface{} {
+	pol, off := q.GetPriorityPolicyAndOffset()
+	apps := []interface{}{}
+	for _, asks := range p.apps {
+		left := []int32{}
+		for _, a := range asks {
+			if !a.removed {
+				left = append(left, a.prio)
+			}
+		}
+		apps = append(apps, left)
+	}
+	return map[string]interface{}{"fence": pol == policies.FencePriorityPolicy, "offset": off, "apps": apps}
 }
 
 func lastPart(paths []string) []string {
@@ -170,8 +284,22 @@ func sortChildrenCase(c *Ctx, cs chCase) {
 			enc := []map[string]interface{}{}
 			for _, n := range names {
 				q := kids[n]
+				var spec chSpec
+				for _, k := range cs.children {
+					if k.name == n {
+						spec = k
+					}
+				}
+				pq := prDump(q, spec.pr)
+				sub := []interface{}{}
+				for _, g := range spec.kids {
+					sub = append(sub, prDump(q.GetChildQueue(g.name), g))
+				}
+				pq["leaf"] = len(spec.kids) == 0
+				pq["kids"] = sub
 				enc = append(enc, map[string]interface{}{"name": n, "max": encRes(q.VerifMaxResourceRaw()), "guaranteed": encRes(q.GetGuaranteedResource()),
-					"allocated": encRes(q.GetAllocatedResource()), "pending": encRes(q.GetPendingResource()), "prio": q.GetCurrentPriority(), "state": q.CurrentState()})
+					"allocated": encRes(q.GetAllocatedResource()), "pending": encRes(q.GetPendingResource()), "prio": q.GetCurrentPriority(), "state": q.CurrentState(),
+					"prioQueue": pq})
 			}
 			line["children"] = enc
 		}
@@ -209,7 +337,11 @@ func sortChildrenCase(c *Ctx, cs chCase) {
 				runs = append(runs, map[string]interface{}{"fair": fair, "prio": prio, "configured": false, "outs": call()})
 			}
 		}
-		trees = append(trees, map[string]interface{}{"order": order, "fairMax": fms, "share": ranks, "runs": runs})
+		prios := [][]interface{}{}
+		for _, n := range names {
+			prios = append(prios, []interface{}{n, kids[n].GetCurrentPriority()})
+		}
+		trees = append(trees, map[string]interface{}{"order": order, "fairMax": fms, "share": ranks, "prios": prios, "runs": runs})
 	}
 	line["trees"] = trees
 }
@@ -239,7 +371,17 @@ func genChildrenCase(c *Ctx) {
 	n := 2 + c.pick(5)
 	names := []string{}
 	for i := 0; i < n; i++ {
-		k := chSpec{name: fmt.Sprintf("c%d", i), prio: int32(c.pick(3)), state: "Active"}
+		k := chSpec{name: fmt.Sprintf("c%d", i), state: "Active"}
+		edges := c.chance(0.4)
+		if c.chance(0.2) {
+			// the child is itself a parent queue: its priority is made of the values its leaf queues report
+			k.pr = c.genPrSpec(k.name, edges, false)
+			for g := 0; g < 1+c.pick(2); g++ {
+				k.kids = append(k.kids, c.genPrSpec(fmt.Sprintf("g%d", g), edges, true))
+			}
+		} else {
+			k.pr = c.genPrSpec(k.name, edges, true)
+		}
 		names = append(names, k.name)
 		if c.chance(0.7) {
 			k.max = c.sparseRes(0.5, 4, 26, 0.12)
@@ -267,9 +409,6 @@ func genChildrenCase(c *Ctx) {
 		default:
 			k.pending = c.sparseRes(0.7, 0, 5, 0.15)
 		}
-		if c.chance(0.15) {
-			k.offset = 1 + c.pick(2)
-		}
 		switch p := c.pick(10); {
 		case p == 0:
 			k.state = "Stopped"
@@ -281,7 +420,8 @@ func genChildrenCase(c *Ctx) {
 			p := cs.children[i-1]
 			k.alloc, k.guar, k.max = p.alloc.Clone(), p.guar.Clone(), p.max.Clone()
 			if c.chance(0.5) {
-				k.prio, k.offset = p.prio, p.offset
+				k.pr, k.kids = p.pr, p.kids
+				k.pr.name = k.name
 			}
 		}
 		cs.children = append(cs.children, k)
@@ -294,6 +434,48 @@ func genChildrenCase(c *Ctx) {
 		cs.trees = append(cs.trees, sub)
 	}
 	sortChildrenCase(c, cs)
+}
+
+var prEdges = []int32{0, 1, -1, 100, 1000000000, 2000000000, 2000001000, 2147483646, 2147483647, -2147483648, -2147483647, -2000000000, -1000000000}
+var prOffsets = []string{"0", "1", "-1", "1000", "1000000000", "-1000000000", "2000000000", "-2000000000", "2147483647", "-2147483647", "-2147483648", "2147483648", "abc"}
+
+// genPrSpec: policy / offset properties and (for a leaf) 0..3 applications with 0..3 asks each. edges: offsets and ask
+// priorities from the edges of int32 (sums that leave the range), else small values with many ties.
+func (c *Ctx) genPrSpec(name string, edges bool, leaf bool) prSpec {
+	p := prSpec{name: name}
+	if edges {
+		if c.chance(0.7) {
+			p.offset = prOffsets[c.pick(len(prOffsets))]
+		}
+		switch c.pick(5) {
+		case 0:
+			p.policy = "fence"
+		case 1:
+			p.policy = "default"
+		}
+	} else if c.chance(0.15) {
+		p.offset = []string{"1", "2", "-1"}[c.pick(3)]
+	}
+	if !leaf {
+		return p
+	}
+	napps, lo := c.pick(4), 0
+	if !edges {
+		napps, lo = 1+c.pick(2), 1
+	}
+	for a := 0; a < napps; a++ {
+		asks := []prAsk{}
+		nasks := lo + c.pick(3)
+		for k := 0; k < nasks; k++ {
+			ask := prAsk{prio: int32(c.pick(3)), removed: c.chance(0.2)}
+			if edges {
+				ask.prio = prEdges[c.pick(len(prEdges))]
+			}
+			asks = append(asks, ask)
+		}
+		p.apps = append(p.apps, asks)
+	}
+	return p
 }
 
 func replayChildrenCase(c *Ctx, in map[string]interface{}) {
